@@ -8,8 +8,20 @@ SRTP itself is a PARAMETER of the model (`Suite`): an abstract session state wit
 `unprotect_*` step functions that may fail, the plain parsers, and a security notion
 `Authentic k w` ("`w` was produced by `protect` under key set `k`") together with LAW FIELDS —
 in particular `unprotect*_sound`: a session only accepts authentic datagrams.  That law is the
-named cryptographic hypothesis of every inbound theorem of C14; for rustrtc's `SrtpContext` it is
-the subject of C05 (`forged_rejected`) and C04.  The gate model never looks inside a datagram.
+named cryptographic HYPOTHESIS of every inbound theorem of C14.  What is and is not established:
+* the law is NOT discharged for rustrtc's SRTP code inside this library: the only instance built is
+  the symbolic `Sym` (below); `Gate.Suite` and C05's `RtcModel.Srtp.Suite` are unrelated structures and
+  no glue instantiates one from the other.  The C05 theorems whose content comes closest are
+  `forgery_needs_collision` / `forged_or_sent` (RTP) and `forgery_needs_collision_rtcp` /
+  `forged_or_sent_rtcp` (HMAC profiles, one receive context): "an accepted datagram is bit-for-bit
+  one the key holder produced, or the event `MacForged` occurred";
+* `AuthenticRtp/AuthenticRtcp` are uninterpreted: the theorems say "delivered ⇒ the session's
+  `unprotect_*` returned Ok ⇒ (by the law) `Authentic`", for whatever `Authentic` the instance supplies;
+* the OUTBOUND side has no cryptographic content at all: `protect*` returns no datagram, and
+  `Form.prot owner key` only records that the protect branch was the branch taken and returned Ok.
+  That such a datagram authenticates and is encrypted is checked on the implementation by the harness
+  classifier and the wire tap, not proved (a NULL-cipher suite satisfies every theorem).
+The gate model never looks inside a datagram.
 
 Each path has its OWN copy of the gate, as in the code, including the arm taken when `protect_*`
 returns an error.
